@@ -5,7 +5,7 @@
    premise.  That premise, and the IAST equations themselves, are checked on every result the implementation returns.
    Property theorems only, each closed by `exact` + Print Assumptions. *)
 From Coq Require Import Reals Lra List Bool QArith Permutation.
-From PG Require Import Lib.Num Lib.Py Iast.IastSpec Iast.IastGlue Iast.IastTheorems Iast.IastInverse Iast.IastExamples.
+From PG Require Import Lib.Num Lib.Py Iast.IastSpec Iast.IastGlue Iast.IastTheorems Iast.IastInverse Iast.IastExamples Iast.IastWrapPre Gen.IastWrapGen Iast.IastWrappers.
 Import ListNotations.
 Open Scope R_scope.
 
@@ -103,20 +103,68 @@ Theorem langmuir_equal_capacity_closed_form : forall M (kps : list kp) xs nt,
 Proof. exact langmuir_equal_capacity_closed. Qed.
 Print Assumptions langmuir_equal_capacity_closed_form.
 
-(* the helpers return what the point calculation gives *)
-Theorem wrappers_are_point : forall point : list R -> res (list R),
-  (forall ys P, iast_point_fraction RNum point ys P = point (map (fun y => y * P) ys))
-  /\ (forall cs y1 y2 Ps sel, iast_binary_svp RNum point cs [y1; y2] Ps = Ok sel ->
-        Forall2 (fun P s => exists ns, point [y1 * P; y2 * P] = Ok ns /\ s = selectivity RNum [y1; y2] ns) Ps sel)
-  /\ (forall y1 y2 na nb, selectivity RNum [y1; y2] [na; nb] = (na / y1) / (nb / y2))
-  /\ (forall cs P ygrid xs ys, iast_binary_vle RNum point cs P ygrid = Ok (xs, ys) ->
-        exists mid, xs = 0 :: mid ++ [1] /\ ys = 0 :: ygrid ++ [1]
-          /\ Forall2 (fun y x => exists ns, point [y * P; (1 - y) * P] = Ok ns /\ x = vle_x RNum ns) ygrid mid).
-Proof.
-  intros point. split; [exact (fraction_is_point point)|]. split; [exact (svp_is_point point)|].
-  split; [exact selectivity_formula | exact (vle_is_point point)].
-Qed.
-Print Assumptions wrappers_are_point.
+(* the helpers return exactly what the point calculation gives. The statements are about the definitions GENERATED from the source of
+   iast_point_fraction / iast_binary_svp / iast_binary_vle (Gen/IastWrapGen.v, tools/py2v_iastwrap.py); `point` is iast_point with the
+   isotherms, branch, warningoff and starting guess handed through unchanged (checked by the translator), `linspace` is numpy.linspace *)
+(* the fraction helper IS the point calculation at partial pressures y_i * P, for EVERY fraction vector (summing to one or not) *)
+Theorem fraction_helper_is_point : forall (point : list R -> res (list R)) ys P,
+  G_iast_point_fraction RNum point ys P = point (map (fun y => y * P) ys).
+Proof. exact gen_fraction_is_point. Qed.
+Print Assumptions fraction_helper_is_point.
+(* the selectivity sweep IS the map of the point calculation over the requested pressures followed by (n1/y1)/(n2/y2) per row *)
+Theorem selectivity_helper_is_map_of_point : forall (point : list R -> res (list R)) cs ys Ps,
+  G_iast_binary_svp RNum point cs ys Ps =
+  if svp_refused cs ys then Err ParameterError
+  else res_map (fun rows => (Ps, map (sel_of ys) rows)) (mapM (fun P => point (map (fun y => y * P) ys)) Ps).
+Proof. exact gen_svp_is_map_of_point. Qed.
+Print Assumptions selectivity_helper_is_map_of_point.
+(* ... hence, per point: whenever it returns, entry k is the selectivity of the loadings the point calculation returns at pressure k;
+   it returns exactly when the point calculation returns at EVERY requested pressure; otherwise it fails with the error of the FIRST
+   pressure the point calculation refuses (no value is reported for a point without a solution) *)
+Theorem selectivity_helper_returns_point_values : forall (point : list R -> res (list R)) cs ys Ps ps sel,
+  G_iast_binary_svp RNum point cs ys Ps = Ok (ps, sel) ->
+  svp_refused cs ys = false /\ ps = Ps
+  /\ Forall2 (fun P s => exists ns, point (map (fun y => y * P) ys) = Ok ns /\ s = sel_of ys ns) Ps sel.
+Proof. exact gen_svp_returns_point_values. Qed.
+Print Assumptions selectivity_helper_returns_point_values.
+Theorem selectivity_helper_returns_iff_every_point_returns : forall (point : list R -> res (list R)) cs ys Ps, svp_refused cs ys = false ->
+  ((exists r, G_iast_binary_svp RNum point cs ys Ps = Ok r) <-> Forall (fun P => exists ns, point (map (fun y => y * P) ys) = Ok ns) Ps).
+Proof. exact gen_svp_returns_iff_every_point_returns. Qed.
+Print Assumptions selectivity_helper_returns_iff_every_point_returns.
+Theorem selectivity_helper_fails_with_first_refused_point : forall (point : list R -> res (list R)) cs ys Ps e, svp_refused cs ys = false ->
+  (G_iast_binary_svp RNum point cs ys Ps = Err e <->
+   exists pre P post, (Ps = pre ++ P :: post)%list /\ Forall (fun P' => exists ns, point (map (fun y => y * P') ys) = Ok ns) pre
+                      /\ point (map (fun y => y * P) ys) = Err e).
+Proof. exact gen_svp_fails_with_first_refused_point. Qed.
+Print Assumptions selectivity_helper_fails_with_first_refused_point.
+(* the vapour-liquid helper IS the map of the point calculation over the compositions (y, 1 - y) of the grid, n1/(n1+n2) per row, with
+   the end points (0,0) and (1,1) added; it fails with the error of the first composition the point calculation refuses *)
+Theorem vle_helper_is_map_of_point : forall (point : list R -> res (list R)) linspace cs P npoints,
+  G_iast_binary_vle RNum point linspace cs P npoints =
+  if vle_refused cs then Err ParameterError
+  else res_map (fun rows => (0 :: map x1_of rows ++ [1], 0 :: vle_grid linspace npoints ++ [1])%list)
+               (mapM (fun y => point [y * P; (1 - y) * P]) (vle_grid linspace npoints)).
+Proof. exact gen_vle_is_map_of_point. Qed.
+Print Assumptions vle_helper_is_map_of_point.
+Theorem vle_helper_returns_point_values : forall (point : list R -> res (list R)) linspace cs P npoints xs ys,
+  G_iast_binary_vle RNum point linspace cs P npoints = Ok (xs, ys) ->
+  vle_refused cs = false
+  /\ exists mid, (xs = 0 :: mid ++ [1])%list /\ (ys = 0 :: vle_grid linspace npoints ++ [1])%list
+     /\ Forall2 (fun y x => exists ns, point [y * P; (1 - y) * P] = Ok ns /\ x = x1_of ns) (vle_grid linspace npoints) mid.
+Proof. exact gen_vle_returns_point_values. Qed.
+Print Assumptions vle_helper_returns_point_values.
+Theorem vle_helper_fails_with_first_refused_point : forall (point : list R -> res (list R)) linspace cs P npoints e, vle_refused cs = false ->
+  (G_iast_binary_vle RNum point linspace cs P npoints = Err e <->
+   exists pre y post, (vle_grid linspace npoints = pre ++ y :: post)%list /\ Forall (fun y' => exists ns, point [y' * P; (1 - y') * P] = Ok ns) pre
+                      /\ point [y * P; (1 - y) * P] = Err e).
+Proof. exact gen_vle_fails_with_first_refused_point. Qed.
+Print Assumptions vle_helper_fails_with_first_refused_point.
+(* the hand-written wrappers of Iast/IastGlue.v are the generated ones *)
+Theorem generated_helpers_are_the_hand_model : forall point : list R -> res (list R),
+  (forall ys P, G_iast_point_fraction RNum point ys P = iast_point_fraction RNum point ys P)
+  /\ (forall cs ys Ps, res_map snd (G_iast_binary_svp RNum point cs ys Ps) = iast_binary_svp RNum point cs ys Ps).
+Proof. exact generated_wrappers_are_the_hand_model. Qed.
+Print Assumptions generated_helpers_are_the_hand_model.
 
 (* the hypotheses are satisfiable: the Henry mixture K = (2, 1), p = (1, 2) has the solution x = (1/2, 1/2), n_t = 4 *)
 Example iast_equations_satisfiable :
@@ -129,3 +177,7 @@ Proof. vm_compute. reflexivity. Qed.
 (* ... and reverse_iast followed by iast_point on it returns the same loadings (hypotheses of reverse_forward_inverse_partial satisfiable) *)
 Example model_runs_reverse_then_forward : reverse_forward_run = true.
 Proof. vm_compute. reflexivity. Qed.
+(* a sweep crossing the range in which the point calculation is defined fails with the point calculation's error at the refused point *)
+Example sweep_fails_at_the_refused_point :
+  G_iast_binary_svp RNum demo_point demo_cs [1 / 2; 1 / 2] [2; 4; 20; 6] = Err CalculationError.
+Proof. exact demo_sweep_fails_at_the_refused_point. Qed.
